@@ -106,6 +106,7 @@ def run(ctx, repo):
     ctx.rule('R6', 'below the first running row: either the lower-end arm of find_row_by_distance compares the scan index with the first '
                    'running row, or calculate_factor tests the neighbour\'s distance before it evaluates the neighbour\'s factor')
     ctx.rule('R7', 'every bare whole-metre distance is classified as a running event by event_code_to_kind (automata inclusion)')
+    ctx.rule('R8', 'data: the km column of every running row equals the distance its code denotes (get_distance folded on the code)')
     ctx.rule('R3', 'data: row "50" present per gender; running distances and standards positive')
     frd = mod.func('AgeGrader.find_row_by_distance')
     # can the two indices be equal?  (chained assignment of both from one value)
@@ -456,6 +457,38 @@ def run(ctx, repo):
                 if not isinstance(std, (int, float)) or std <= 0:
                     ctx.finding('R3', '%s::%s %s::standard' % (rel, g, r[0]), rel, None, 'running row %s %s has standard %r' % (g, r[0], std))
                 prev = (r[0], dist)
+    # ---- R8 the km column of every running row is the distance its code denotes (get_distance of the code, by constant folding of the
+    # pure function; it is an approximation by docstring, so 0.5 % is allowed): the scan of find_row_by_distance brackets by this column
+    from .. import fold as _fold
+    uenv, ufolder = repo.folded('athlib/utils.py')
+    gd_fc = uenv.get('get_distance')
+    if not isinstance(gd_fc, _fold.FuncConst):
+        raise AnalysisError('get_distance is not foldable')
+    n_km = 0
+    for rel in TABLES:
+        d = repo.json(rel)
+        for g in ('m', 'f'):
+            rows = d.get(g) or []
+            codes = [r[0] for r in rows]
+            if '50' not in codes:
+                continue
+            for r in rows[codes.index('50'):]:
+                try:
+                    want = _fold.Folder(importer=ufolder.importer).call(gd_fc, [r[0]], {})
+                except Exception:
+                    want = None
+                if not isinstance(want, (int, float)) or not isinstance(r[1], (int, float)) or want <= 0:
+                    continue
+                n_km += 1
+                if abs(1000.0 * r[1] - want) > 0.005 * want:
+                    ctx.finding('R8', '%s::%s %s::distance column' % (rel, g, r[0]), rel, None,
+                                'row %s %s has %s km in its distance column, but the code denotes %s m: distances near it are bracketed by the wrong '
+                                'neighbours, so the interpolated factor and best are not between those of the nearest events' % (g, r[0], r[1], want),
+                                {'row': r[0], 'km': r[1], 'metres_of_the_code': want})
+    ctx.count('running rows whose distance column was compared with the code', n_km)
+    ctx.floor('distance columns compared', n_km, 120)
+    if not any(f.rule == 'R8' for f in ctx.findings):
+        ctx.ok('R8', '%d running rows: the distance column equals the distance of the code (0.5 %%)' % n_km)
     ctx.count('running rows checked', n_rows)
     ctx.floor('running rows checked', n_rows, 150)
     if not any(f.rule == 'R3' for f in ctx.findings):
